@@ -1,14 +1,29 @@
 /-
 C04 — Timing: no early shots; discard_overflow bounds lateness to the 2 s window.
 
-The theorems are about `Pandora.Model.C04` (the Waiter and the instance loop), for ALL token sequences, waiter states
-and clock histories (`List Iter`: one record per loop iteration with the token, the instant it was picked up, the clock
-reading, the instant `Wait` returned, the response time), under explicit clock hypotheses (`ClockOK`):
-readings are non-decreasing; a reading is not later than the instant at which it is used; a timer does not fire early.
-The model is tied to the current source by `Pandora.Bridge.Waiter` (regenerated `Wait`, `IsSlowDown`, constants, the
-fire/discard `if`) and by the real-time correspondence run (harness/cmd/c04).
+The theorems are about `Pandora.Model.C04`: the Waiter, the loop of `instance.Run` (`runLoop`, one pass = `iteration`) and any
+number of instances drawing from one shared schedule (`pstep`/`prun`).  They hold for ALL token sequences, waiter states, clock
+and response-time histories (`List Iter`: one record per pass with the token, the instant it was picked up, the clock reading, the
+instant `Wait` returned, the response time) and ALL interleavings of the instances' schedule accesses (`List PStep`, any instance
+count), under explicit clock hypotheses (`ClockOK`): readings are non-decreasing; a reading is not later than the instant at which
+it is used; a timer does not fire early.
 
-"late ⇒ discarded" is a theorem of the REPAIRED `Wait` (`Variant.fresh`) only; for the code as found
+Clause → theorem:
+* no request fired before its scheduled time ............ `C04_no_early_wait`, `C04_no_early`, `C04_pool_timing`
+* on: ≥ 2 s late when picked up ⇒ not fired, discarded .. `C04_discarded_if_late`, `C04_late_is_discarded`, `C04_discard_sample`
+  (cancellation corner: `C04_discarded_if_late_any_ctx_statement` / `…_counterexample`; code as found: `…_counterexample_old`)
+* on: < 2 s late ⇒ never discarded ...................... `C04_not_discarded_if_fresh`
+* on: run length ≤ profile + 2 s + response ............. `C04_run_bounded`, `C04_run_end_bounded`
+* off: nothing discarded, every token fired ............. `C04_off`, `C04_every_drawn_token_acted`, `C04_pool_off_all_fired`
+* all instance counts ................................... `C04_pool_conservation`, `C04_pool_each_token_acted_once`,
+  `C04_pool_on_all_acted`, `C04_pool_timing`
+* the default is "on" ................................... `C04_default_on`
+* the model is the current source ....................... `C04_model_is_source`, `C04_loop_is_source`
+
+The model is tied to the current source by `Pandora.Bridge.Waiter` (regenerated `Wait`, `IsSlowDown`, `IsFinished`, constants, the
+whole pass of the loop of `instance.Run`, the cli default and its wiring) and by the real-time correspondence run (harness/cmd/c04).
+
+"late ⇒ discarded" is a theorem of the REPAIRED `Wait` (`Variant.fresh`, /repo commit 1006bde) only; for the code as it was found
 (`Variant.cached`) it is refuted by `C04_discarded_if_late_counterexample_old`.
 -/
 import Pandora.Proofs.C04
